@@ -439,6 +439,23 @@ func init() {
 }
 
 func runC03(c *rt.Ctx) {
+	callerEditsReturnedErrors(c, map[string]func() error{
+		"sem.Parse[string](x)":             func() error { _, err := sem.Parse("x"); return err },
+		"sem.Parse[string](01.0.0)":        func() error { _, err := sem.Parse("01.0.0"); return err },
+		"sem.Parse[[]byte](1.0.0-01)":      func() error { _, err := sem.Parse([]byte("1.0.0-01")); return err },
+		"sem.ParseTag[string](1.0.0)":      func() error { _, err := sem.ParseTag("1.0.0"); return err },
+		"sem.ParseVersion[string](v1.0.0)": func() error { _, err := sem.ParseVersion("v1.0.0"); return err },
+		"sem.Parser variable(1.0)":         func() error { _, err := sem.Parser([]byte("1.0"), 0); return err },
+		"Ver.UnmarshalText(1.0.0+)":        func() error { var v sem.Ver; return v.UnmarshalText([]byte("1.0.0+")) },
+	})
+	appenderSweep(c, func() []any {
+		var out []any
+		for _, v := range []sem.Ver{sem.New(1, 2, 3, "rc.1", "b7"), sem.New(0, 0, 0, "", ""), sem.New(10, 20, 30, "", "x-y"), sem.New(1, 0, 0, "alpha.0", "")} {
+			v := v
+			out = append(out, v, &v)
+		}
+		return out
+	}())
 	configuredEpisode() // the process has a past: failing configured Formatters and Parsers, since restored
 	c.Extra("history_before_the_streams", "an episode of failing configured Formatter/Parser variables in all five packages")
 	L1, L2, L3 := c.Pick(7, 8), c.Pick(7, 8), c.Pick(9, 10)
